@@ -20,6 +20,7 @@ CLAIMED = {
                 "at which every constraint's comparison holds stays inside the box, given forms related to their constraints as from_constraint guarantees; index errors are panics (rule R54) about which nothing is claimed. "
                 "The two ends are under contract as well (U07.pub): from_domain builds a box that contains every assignment inside the declared domains, and apply_to_domain publishes for every variable a domain that contains every value of its declared domain lying in the inferred range "
                 "(integer ends rounded within the tolerance and cast with saturation must bracket every integer of the interval; reals copied; non-negative reals clipped at 0), leaving the key set unchanged. "
+                "Before the lowering, the ranges the domains cannot carry are dropped (U07.reset, slices of Linearizer::linearize and Linearizer::new_from with reset_to_declared: whatever names apply_to_domain hands back, resetting a variable to the range of its published domain entry keeps the box sound for every assignment inside the published domains; apply_to_domain also keeps every published range well-formed). "
                 "The forms handed to the loop are built by mapping from_constraint over the constraints in order (U07.pre, a statement slice), and a tiling guard keeps every other top-level statement of propagate_affine_constraints listed. "
                 "NOT decided deductively: the glue (analyze_with_options; the dependency table and the initial queue, which decide which constraints are revisited but not what is derived), and everything that depends on floating-point rounding (floats are exact reals in the proofs): these are covered only by a BOUNDED search over "
                 "the whole real analyser (19 systems x 3 domains x 3 step limits). That search exposes one KNOWN FINDING (recorded, not repaired): real bounds inexact in floating point are published without outward rounding. "
